@@ -39,6 +39,7 @@ func init() {
 			{Name: "wazevo-tailcall-indirect-check-removed", File: "internal/engine/wazevo/frontend/lower.go", Old: "func (c *Compiler) lowerTailCallReturnCallIndirect(typeIndex, tableIndex uint32) {\n\t// A tail call does not grow the call stack, so a cycle of them is a loop.\n\tif c.ensureTermination {\n\t\tc.insertModuleExitCodeCheck()\n\t}\n", New: "func (c *Compiler) lowerTailCallReturnCallIndirect(typeIndex, tableIndex uint32) {\n", Rule: "R07.1", Substr: "wazevo"},
 			{Name: "wazevo-loop-check-extra-condition", File: "internal/engine/wazevo/frontend/lower.go", Old: "\t\tif c.ensureTermination {\n\t\t\tc.insertModuleExitCodeCheck()\n\t\t}\n\tcase wasm.OpcodeIf:", New: "\t\tif c.ensureTermination && len(bt.Params) == 0 {\n\t\t\tc.insertModuleExitCodeCheck()\n\t\t}\n\tcase wasm.OpcodeIf:", Rule: "R07.1", Substr: "wazevo loop"},
 			{Name: "interp-check-does-not-panic", File: "internal/engine/interpreter/interpreter.go", Old: "\t\t\tif err := m.FailIfClosed(); err != nil {\n\t\t\t\tpanic(err)\n\t\t\t}\n\t\t\tframe.pc++\n\t\tcase operationKindUnreachable:", New: "\t\t\t_ = m.FailIfClosed()\n\t\t\tframe.pc++\n\t\tcase operationKindUnreachable:", Rule: "R07.2", Substr: "interpreter"},
+			{Name: "interp-check-conditional", File: "internal/engine/interpreter/interpreter.go", Old: "\t\t\tif err := m.FailIfClosed(); err != nil {\n\t\t\t\tpanic(err)\n\t\t\t}\n\t\t\tframe.pc++\n\t\tcase operationKindUnreachable:", New: "\t\t\tif m.Closed.Load()>>32 != 0 {\n\t\t\t\tif err := m.FailIfClosed(); err != nil {\n\t\t\t\t\tpanic(err)\n\t\t\t\t}\n\t\t\t}\n\t\t\tframe.pc++\n\t\tcase operationKindUnreachable:", Rule: "R07.2", Substr: "interpreter"},
 			{Name: "wazevo-watcher-not-started", File: "internal/engine/wazevo/call_engine.go", Old: "\tif ensureTermination {\n\t\tdone := m.CloseModuleOnCanceledOrTimeout(ctx)\n\t\tdefer done()\n\t}\n", New: "", Rule: "R07.3", Substr: "wazevo"},
 			{Name: "watcher-deadline-unmapped", File: "internal/wasm/module_instance.go", Old: "\t\t\tcase errors.Is(ctx.Err(), context.DeadlineExceeded):\n\t\t\t\t// TODO: figure out how to report error here.\n\t\t\t\t_ = m.closeWithExitCodeWithoutClosingResource(sys.ExitCodeDeadlineExceeded)\n", New: "", Rule: "R07.3", Substr: "DeadlineExceeded"},
 		},
@@ -462,10 +463,14 @@ func runC07(c *core.Ctx) {
 		for _, g := range goSide {
 			// if err := m.FailIfClosed(); err != nil { panic(err) }
 			ok := false
+			topLevel := map[ast.Node]bool{}
+			for _, s := range g.Clause.Body {
+				topLevel[s] = true
+			}
 			ast.Inspect(g.Clause, func(n ast.Node) bool {
 				is, isIf := n.(*ast.IfStmt)
-				if !isIf || is.Init == nil {
-					return true
+				if !isIf || is.Init == nil || !topLevel[is] {
+					return true // the check must run unconditionally whenever the arm runs
 				}
 				as, isAs := is.Init.(*ast.AssignStmt)
 				if !isAs || len(as.Lhs) != 1 || len(as.Rhs) != 1 {
@@ -492,7 +497,7 @@ func runC07(c *core.Ctx) {
 				return true
 			})
 			c.Check(ok, "R07.2", e.name+" go-side in "+core.FuncName(g.Pkg, g.Fn), g.Clause.Pos(), "calls FailIfClosed and panics with its error",
-				"the Go side of the termination check does not panic with FailIfClosed's error: a closed module keeps running")
+				"the Go side of the termination check does not unconditionally call FailIfClosed and panic with its error: a closed module (e.g. closed with exit code 0) keeps running")
 		}
 	}
 
@@ -656,7 +661,27 @@ func runC07(c *core.Ctx) {
 					inLabel := false
 					for _, l := range cc.List {
 						if core.RefsAny(wasmP.TypesInfo, l, map[types.Object]bool{errObj: true}) {
-							inLabel = true
+							// the classified error must be ctx.Err(): errors.Is(ctx.Err(), context.X)
+							if call, isCall := ast.Unparen(l).(*ast.CallExpr); isCall && len(call.Args) == 2 {
+								arg := ast.Unparen(call.Args[0])
+								if id, isID := arg.(*ast.Ident); isID {
+									// follow one local definition
+									obj := wasmP.TypesInfo.Uses[id]
+									ast.Inspect(fd.Body, func(m ast.Node) bool {
+										if as, isAs := m.(*ast.AssignStmt); isAs && len(as.Lhs) == len(as.Rhs) {
+											for i, lh := range as.Lhs {
+												if li, isLI := lh.(*ast.Ident); isLI && (wasmP.TypesInfo.Defs[li] == obj || wasmP.TypesInfo.Uses[li] == obj) && obj != nil {
+													arg = ast.Unparen(as.Rhs[i])
+												}
+											}
+										}
+										return true
+									})
+								}
+								if calleeIs(wasmP.TypesInfo, arg, "context", "Context", "Err") {
+									inLabel = true
+								}
+							}
 						}
 					}
 					if inLabel {
@@ -669,7 +694,7 @@ func runC07(c *core.Ctx) {
 					return true
 				})
 				c.Check(ok, "R07.3", fmt.Sprintf("%s maps context.%s", core.FuncName(wasmP, fd), p.errName), fd.Pos(),
-					"arm for context."+p.errName+" closes with sys."+p.codeName, "no arm maps context."+p.errName+" to sys."+p.codeName+": that cause never closes the module (or closes it with the wrong exit code)")
+					"arm for context."+p.errName+" closes with sys."+p.codeName, "no arm tests errors.Is(ctx.Err(), context."+p.errName+") and closes with sys."+p.codeName+": that cause never closes the module (or closes it with the wrong exit code; classifying anything but ctx.Err(), e.g. context.Cause, misses custom causes)")
 			}
 		})
 	}
